@@ -30,6 +30,8 @@ UNIT = dict(
                  ('argmin_hits', ['C08'], 'res is Some ==> is_min_hits(map@, order@, res->Some_0)'),
                  ('none_only_if_saturated', ['C04', 'C08'],
                   'res is None ==> forall|j: int| 0 <= j < order@.len() && map@.contains_key(#[trigger] order@[j]) ==> map@[order@[j]].frequency == u64::MAX'),
+                 # ground instance of the clause above for the queue front, stated so that the term is available to callers
+                 ('none_front_saturated', ['C04'], 'res is None && order@.len() > 0 && map@.contains_key(order@[0]) ==> map@[order@[0]].frequency == u64::MAX'),
              ],
              loops={0: dict(iter='it', invariant=[
                  ('some_is_seen', 'min_freq_key is Some ==> map@.contains_key(min_freq_key->Some_0) && order@.contains(min_freq_key->Some_0) && map@[min_freq_key->Some_0].frequency == min_freq'),
